@@ -45,7 +45,8 @@ REGION_EVAL_EXIT = g.REGION_EVAL_EXIT
 REGION_REPLACE_TEMPLATE = g.REGION_REPLACE_TEMPLATE
 REGION_PATH_GLOB = g.REGION_PATH_GLOB
 REGION_NUL = 'c18-nul-character-in-file-name'
-REGIONS = (REGION_EVAL, REGION_EVAL_EXIT, REGION_REPLACE_TEMPLATE, REGION_PATH_GLOB, REGION_NUL)
+REGION_EVAL_UNBOUNDED = 'c18-integer-expression-evaluated-without-bound'
+REGIONS = (REGION_EVAL, REGION_EVAL_EXIT, REGION_REPLACE_TEMPLATE, REGION_PATH_GLOB, REGION_NUL, REGION_EVAL_UNBOUNDED)
 
 STUB_EVAL = ('builtin eval as seen from evaluate_integer.python_evaluate: returns a symbolic integer / a non-integer value / '
              'raises an exception of the catalogue (contract: eval may return or raise anything)')
@@ -1435,6 +1436,85 @@ def _chunks(n: int, size: int):
     return [(lo, min(n, lo + size)) for lo in range(0, n, size)]
 
 
+# =========================================================================== K8: "Exactly terminates"
+# Whole program in a CHILD process under a wall-clock limit: an integer expression is handed to eval() as it stands, and
+# a C-level computation that does not end (9**9**9**9) cannot be interrupted from inside the process.  Added in round 4
+# (reported by the author of a seeded change): listed as a known finding, region REGION_EVAL_UNBOUNDED.
+
+K8_LIMIT_S = 20
+DOC_TERMINATES = (
+    ('control-power', '[assert]\nexit-code == 2**10\n', None),
+    ('control-large-power', '[setup]\ntimeout = 10**400\n', None),
+    ('control-nested-small-powers', '[assert]\nexit-code == 2**3**2**2\n', None),
+    ('control-too-large-to-display', '[assert]\nexit-code == 10**5000\n', None),
+    ('control-deep-parentheses', '[assert]\nexit-code == ' + '(' * 40 + '1' + ')' * 40 + '\n', None),
+    ('control-long-sum', '[assert]\nexit-code == ' + '+'.join(['1'] * 400) + '\n', None),
+    ('power-tower-in-exit-code', '[assert]\nexit-code == 9**9**9**9\n', REGION_EVAL_UNBOUNDED),
+    ('power-tower-in-timeout', '[setup]\ntimeout = 9**9**9**9\n', REGION_EVAL_UNBOUNDED),
+    ('power-tower-via-symbol', '[setup]\ndef string E = 9**9**9**9\n[assert]\nexit-code == @[E]@\n', REGION_EVAL_UNBOUNDED),
+)
+STUB_K8 = ('the real program `exactly FILE` in a child process of the interpreter that runs the harness (PYTHONPATH = the source '
+           'tree under analysis), killed after %d s of wall-clock time; the selector is made concrete first and CrossHair tracing is '
+           'suspended: the solver enumerates the catalogue' % K8_LIMIT_S)
+
+
+def _k8_untraced():
+    import contextlib
+    try:
+        from crosshair.tracers import NoTracing, is_tracing
+    except ImportError:
+        return contextlib.nullcontext()
+    return NoTracing() if is_tracing() else contextlib.nullcontext()
+
+
+def _k8_run(text: str):
+    """-> (finished, exit code, stdout, stderr)"""
+    import os, subprocess, sys, shutil
+    import exactly_lib
+    from vsym import scratch
+    src = os.path.dirname(os.path.dirname(os.path.abspath(exactly_lib.__file__)))
+    d = scratch.new_dir('c18k8-')
+    try:
+        os.makedirs(os.path.join(d, 'tmp'))
+        f = os.path.join(d, 'k8.case')
+        with open(f, 'w') as fo:
+            fo.write(text)
+        prog = ("import sys; from exactly_lib.cli_default.default_main_program_setup import main; "
+                "sys.argv = ['exactly', %r]; sys.exit(main())" % f)
+        env = dict(os.environ, PYTHONPATH=src, TMPDIR=os.path.join(d, 'tmp'), PYTHONDONTWRITEBYTECODE='1')
+        try:
+            r = subprocess.run([sys.executable, '-W', 'ignore', '-c', prog], stdout=subprocess.PIPE, stderr=subprocess.PIPE,
+                               stdin=subprocess.DEVNULL, env=env, cwd=d, timeout=K8_LIMIT_S)
+        except subprocess.TimeoutExpired:
+            return False, None, '', ''
+        return True, r.returncode, r.stdout.decode('utf-8', 'replace'), r.stderr.decode('utf-8', 'replace')
+    finally:
+        shutil.rmtree(d, ignore_errors=True)
+
+
+def _pre_k8(i: int) -> bool:
+    if not (0 <= i < len(DOC_TERMINATES)):
+        return False
+    region = ob.pick(DOC_TERMINATES, i)[2]
+    return not (region is not None and ob.excluded(region))
+
+
+def k8_terminates(i: int) -> bool:
+    """
+    pre: _pre_k8(i)
+    post: _
+    """
+    name, text, region = ob.pick(DOC_TERMINATES, i)
+    with _k8_untraced():
+        finished, rc, out, err = _k8_run(text)
+    if ob.case().get('oracle_bug'):
+        return ob.post(finished and rc == 0)
+    good = (finished and rc in cli.OUTCOMES.values() and rc != cli.OUTCOMES['INTERNAL_ERROR']
+            and 'Traceback (most recent call last)' not in err
+            and out.split('\n', 1)[0] in cli.OUTCOMES and cli.OUTCOMES[out.split('\n', 1)[0]] == rc)
+    return ob.post(good)
+
+
 def obligations(tier: str) -> List[Ob]:
     quick = tier == 'quick'
     obs = []
@@ -1571,6 +1651,16 @@ def obligations(tier: str) -> List[Ob]:
                   timeout=900, real=REAL_CLI, stubs=cli.STUBS, entry='MainProgram.execute([FILE]) past its argument parser: MainProgram.execute_test_case(settings).report(environment)'))
     obs.append(Ob(name='K7:seeded-oracle-error', fn='k7_document', case=dict(odd='mistakes', range=(0, 2), oracle_bug=True), kernel='K7',
                   selector=True, bound='seeded: a syntax error is claimed to be a validation error', timeout=300, expect=ob.REFUTE))
+    # ---- K8
+    obs.append(Ob(name='K8:terminates', fn='k8_terminates', case=dict(), kernel='K8', selector=True,
+                  bound='test cases with the integer expressions %s: the program ends within %d s with a documented outcome other than '
+                        'INTERNAL_ERROR, identifier and exit code in agreement, no traceback' % ([d[0] for d in DOC_TERMINATES], K8_LIMIT_S),
+                  timeout=600, real=REAL_CLI + ('exactly_lib.impls.types.integer.evaluate_integer.python_evaluate',), stubs=(STUB_K8,),
+                  entry='exactly FILE (child process)',
+                  outside=('expressions outside the catalogue: what eval() makes of a text is not modelled (C boundary); termination is '
+                           'observed as "within %d s on this machine"' % K8_LIMIT_S,)))
+    obs.append(Ob(name='K8:seeded-oracle-error', fn='k8_terminates', case=dict(oracle_bug=True), kernel='K8', selector=True,
+                  bound='seeded: every test case is claimed to PASS', timeout=300, expect=ob.REFUTE))
     return obs
 
 
